@@ -9,7 +9,7 @@ import z3
 from pyvc.contracts import Any, Bool, BytesT, Const, ExtSpec, ExtT, Int, ListOfT, LockT, LoopSpec, MapT, ObjT, OptT, Str
 from pyvc.engine import ok, rs
 from pyvc.state import Event
-from pyvc.values import Builtin, ExcV, Opaque, Opt, Ref, U, fresh_name, to_int_term
+from pyvc.values import Builtin, ExcV, HObj, Opaque, Opt, Ref, U, fresh_name, to_int_term
 
 from .a_common import is_none
 from .a_submit import CFG, EXTRA, UT
@@ -306,6 +306,98 @@ def register(R):
         'every_attempt_rewrites_from_the_jobs_offset_into_the_temp_file': B(dgo_common(c)[2] and len(dgo_common(c)[1]) >= 1),
         'returns_after_an_attempt_that_wrote_its_whole_body': B(bool(dgo_common(c)[1]) and dgo_common(c)[1][-1].extra.get('raised') is None),
     }
+
+    # ------------------------------------------------------------------ TransferMonitor (runs in the manager process, one thread per client)
+    # Verified for a monitor that tracks two transfers under the representative ids 7 and 8 (the code uses an id only as a
+    # dictionary key, so the choice of key is immaterial -- that symmetry argument is NOT machine-checked); each TransferState is
+    # an arbitrary shared object.
+    TMON = f'{PP}:TransferMonitor'
+    R.add_fields(TMON, _transfer_states=Any, _id_count=Int, _init_lock=LockT())
+    R.mark_inline(f'{TS}.__init__', f'{TS}.set_done', f'{TS}.wait_till_done')
+
+    def two_states(eng, st):
+        a = eng.make_symbolic(ObjT(TS, shared=True), 'state7', st)
+        b = eng.make_symbolic(ObjT(TS, shared=True), 'state8', st)
+        st.ghost['tmon_states'] = (a, b)
+        return st.alloc(HObj('dict', items={7: a, 8: b}))
+
+    TM2 = ObjT(TMON, _transfer_states=Const(two_states))
+    ev_of = lambda tr, name, ref: [e for e in tr if e.kind == 'ext' and e.name == name and e.recv is not None and e.recv.oid == ref.oid]
+
+    def state7(c):
+        return c.old.st.ghost['tmon_states'][0]
+
+    def poll_checks(c):
+        s7 = state7(c)
+        w = [e for e in c.trace if e.kind == 'ext' and e.name == 'event.wait']
+        return {'waits_for_that_transfers_done_event_first': B(len(w) == 1 and w[0].recv.oid == c.old.obj(s7).fields['_done_event'].oid),
+                'returns_none_only_if_no_exception_is_recorded': z3.And(B(c.result is None), is_none(c.new.f(s7, '_exception')))}
+
+    R.contract(f'{TMON}.poll_for_result', props=['C19', 'C03'], params=dict(transfer_id=Const(7)), self_type=TM2, checks=poll_checks, top_level=True,
+               raises={'$stored': lambda c: {'raises_the_recorded_exception_after_waiting': z3.And(
+                   B(len([e for e in c.trace if e.kind == 'ext' and e.name == 'event.wait']) == 1), z3.Not(is_none(c.new.f(state7(c), '_exception'))))},
+                   'KeyboardInterrupt': lambda c: {}})
+
+    def cancel_all_checks(c):
+        a, b = c.old.st.ghost['tmon_states']
+        out = {}
+        for nm, sref in (('7', a), ('8', b)):
+            q = [e for e in c.trace if e.kind == 'ext' and e.name == 'event.is_set' and e.recv.oid == c.old.obj(sref).fields['_done_event'].oid]
+            exc1, exc0 = c.new.f(sref, '_exception'), c.old.f(sref, '_exception')
+            is_cancel = isinstance(exc1, ExcV) and exc1.cls == 'concurrent.futures.CancelledError'
+            unchanged = exc1 is exc0
+            from pyvc.values import to_z3_bool
+            out[f'transfer_{nm}_is_cancelled_iff_it_was_not_done'] = (z3.If(to_z3_bool(q[0].result), B(bool(unchanged)), B(bool(is_cancel)))
+                                                                     if len(q) == 1 else B(False))
+        return out
+
+    R.contract(f'{TMON}.notify_cancel_all_in_progress', props=['C19', 'C07'], params={}, self_type=TM2, checks=cancel_all_checks, raises={}, top_level=True)
+
+    def two_private_states(eng, st):
+        a = eng.make_symbolic(ObjT(TS), 'state7', st)
+        b = eng.make_symbolic(ObjT(TS), 'state8', st)
+        st.ghost['tmon_states'] = (a, b)
+        return st.alloc(HObj('dict', items={7: a, 8: b}))
+
+    def simple(name, params, chk, **kw):
+        R.contract(f'{TMON}.{name}', props=['C19'], params=params, self_type=kw.pop('self_type', TM2), checks=chk, raises={}, top_level=True, **kw)
+
+    simple('notify_exception', dict(transfer_id=Const(7), exception=ExtT('exception')),
+           lambda c: {'recorded_for_that_transfer_only': B(c.new.f(state7(c), '_exception') is c.a_exception
+                                                           and c.new.f(c.old.st.ghost['tmon_states'][1], '_exception') is c.old.f(c.old.st.ghost['tmon_states'][1], '_exception'))})
+    simple('get_exception', dict(transfer_id=Const(7)), lambda c: {'that_transfers_exception': B(c.result is c.old.f(state7(c), '_exception'))})
+    # (the expected count is written WITHOUT `_job_lock`: by protocol the submitter announces it before it queues the first job of
+    #  the transfer -- `expected_jobs_announced...before_the_job_is_queued` -- so no decrement can run concurrently; verified on
+    #  states that are not shared at that moment)
+    simple('notify_expected_jobs_to_complete', dict(transfer_id=Const(7), num_jobs=Int), self_type=ObjT(TMON, _transfer_states=Const(two_private_states)), chk=
+           lambda c: {'counter_set_for_that_transfer_only': z3.And(
+               c.new.f(state7(c), '_jobs_to_complete') == c.a_num_jobs,
+               c.new.f(c.old.st.ghost['tmon_states'][1], '_jobs_to_complete') == c.old.f(c.old.st.ghost['tmon_states'][1], '_jobs_to_complete'))})
+    simple('notify_job_complete', dict(transfer_id=Const(7)),
+           lambda c: {'delegates_to_the_atomic_decrement_of_that_transfer': B(
+               len(calls(c.trace, 'TransferState.decrement_jobs_to_complete')) == 1
+               and calls(c.trace, 'TransferState.decrement_jobs_to_complete')[0].recv.oid == state7(c).oid
+               and c.result is calls(c.trace, 'TransferState.decrement_jobs_to_complete')[0].result)})
+    simple('notify_done', dict(transfer_id=Const(7)),
+           lambda c: {'sets_that_transfers_done_event': B(
+               [e.recv.oid for e in c.trace if e.kind == 'ext' and e.name == 'event.set'] == [c.old.obj(state7(c)).fields['_done_event'].oid])})
+
+    # new ids are handed out under `_init_lock`: distinct, and registered before the id is returned
+    R.monitor(TMON, lock='_init_lock', fields=dict(_id_count=Int), invariant=lambda v, ref: {}, props=['C19'])
+
+    def new_transfer_post(c):
+        from pyvc.values import to_int_term
+        m0, m1 = c.old.obj(c.oldf('_transfer_states')).meta, c.new.obj(c.newf('_transfer_states')).meta
+        rid = to_int_term(c.result)
+        k = z3.Int('k__')
+        return {'returns_the_counter_read_under_the_lock_and_advances_it': z3.And(
+                    rid == to_int_term(c.oldf('_id_count')), to_int_term(c.newf('_id_count')) == to_int_term(c.oldf('_id_count')) + 1),
+                'a_state_is_registered_under_the_returned_id_and_no_other_entry_changes': z3.And(
+                    z3.Select(m1['present'], rid),
+                    z3.ForAll([k], z3.Implies(k != rid, z3.Select(m1['present'], k) == z3.Select(m0['present'], k))))}
+
+    R.contract(f'{TMON}.notify_new_transfer', props=['C19'], params={}, self_type=ObjT(TMON, shared=True, _transfer_states=MapT('Int', Any)),
+               old_at='acquire', ensures=new_transfer_post, raises={}, returns=Int, top_level=True)
 
     # ------------------------------------------------------------------ downloader shutdown / Ctrl-C
     PPD = f'{PP}:ProcessPoolDownloader'
